@@ -44,15 +44,10 @@ def domain (c : Curve α) : α × α :=
   | [] => (0, 0)
   | _ => ((c.segX 0).p0, (c.segX (c.nseg - 1)).p5)
 
-/-- `getXControlPoints` / `getYControlPoints` as coded: the matrix is resized to
-    (sections x 6) and only the columns `j < sections` are written (loop bound `_mXVec.size()`
-    instead of 6); `old i j` is what the caller's matrix held before.  More than 6 sections: the
-    C++ reads and writes out of bounds (`none`). -/
-def getCPAsCoded (vecs : List (P6 α)) (old : Nat → Nat → α) : Option (List (List α)) :=
-  let n := vecs.length
-  if n > 6 then none else
-  some ((List.range n).map (fun i => (List.range 6).map (fun j =>
-    if j < n then (vecs.getD i default).get j else old i j)))
+/-- `getXControlPoints` / `getYControlPoints`: the matrix is resized to (sections x 6) and every
+    entry is written from the stored control values -/
+def getCP (vecs : List (P6 α)) : List (List α) :=
+  (List.range vecs.length).map (fun i => (List.range 6).map (fun j => (vecs.getD i default).get j))
 
 /-- what the getters are meant to report: all six control values of every section -/
 def getCPSpec (vecs : List (P6 α)) : List (List α) := vecs.map P6.toList
@@ -62,9 +57,16 @@ variable [LT α] [LE α] [DecidableLT α] [DecidableLE α] [DecidableEq α]
 /-- `scale`; `none` = throws (|xScale| ≤ sqrt(eps)) -/
 def scale (c : Curve α) (xScale yScale : α) : Option (Curve α) :=
   if absα xScale ≤ rootEPS then none else
-  some { x0 := c.x0 * xScale, x1 := c.x1 * xScale, y0 := c.y0 * yScale, y1 := c.y1 * yScale,
+  let s : Curve α :=
+       { x0 := c.x0 * xScale, x1 := c.x1 * xScale, y0 := c.y0 * yScale, y1 := c.y1 * yScale,
          dydx0 := c.dydx0 * (yScale/xScale), dydx1 := c.dydx1 * (yScale/xScale),
          mX := c.mX.map (P6.map (· * xScale)), mY := c.mY.map (P6.map (· * yScale)) }
+  -- a negative x scale mirrors the curve: end points, sections and control points are put back
+  -- into ascending order
+  if xScale < 0 then
+    some { x0 := s.x1, x1 := s.x0, y0 := s.y1, y1 := s.y0, dydx0 := s.dydx1, dydx1 := s.dydx0,
+           mX := s.mX.reverse.map P6.rev, mY := s.mY.reverse.map P6.rev }
+  else some s
 
 /-- `SegmentedQuinticBezierToolkit::calcIndex(x, std::vector<VectorNd>)`; `none` = throws -/
 def calcIndex (c : Curve α) (x : α) : Option Nat :=
